@@ -41,6 +41,10 @@ CHECKS = {
    text="precession_equatorial and precession_newcomb: the atan2/asin arguments obtained by symbolic execution of the real code equal R_y(theta).unitvec(alpha+zeta, delta) for the proper-motion corrected start angles (exact trig identities, ring normaliser); the returned right ascension is that atan2 value plus z (mod 360), the declination the asin value, and on the polar branch acos(sqrt(A^2+B^2)) with A^2+B^2+C^2 = 1; proper motion enters linearly in elapsed time; zero interval gives zeta = z = theta = 0; for IAU-1976 the backward parameters are exactly the negated, swapped forward ones (polynomial identities in both epochs), and the matrix lemma shows there-and-back = identity and P^T P = I (angles between stars preserved) for all parameters. precession_ecliptical: the same rotation identities with R_x(-eta), Pi + 174.876384, p; zero interval identity.",
    note="R-mode; trig uninterpreted with axiom packs; Angle.reduce_deg / dms2deg through their C03 contracts (opaque reduced value r = x - 360 k). Bounded stand-ins (seeded sphere incl. 5 deg around both poles, epochs within +-5 centuries): 1e-9 deg in binary64, ecliptical there-and-back 1e-6 deg, route agreement through the mean obliquity 1e-4 deg, FK4 vs FK5 0.005 deg, orbital_equinox2equinox round trip. Four genuine defects found and repaired (Newcomb TypeError, missing acos at the pole, retrograde and small inclinations).",
    technique="contract-based deductive verification: AST symbolic execution with cuts + exact ring normaliser + z3; bounded run-time contracts for binary64 and cross-polynomial clauses", ref="DESIGN.md §3 C06"),
+ "C17": dict(category="proof",
+   text="For data sets of n = 2..5 points with fully symbolic coordinates the tuples returned by linear_fitting, quadratic_fitting and general_fitting (bases (x^2,x,1), (x,1), (x)) are proved to satisfy the normal equations (residuals orthogonal to every basis function: exact rational identities checked by the ring normaliser on the terms produced by symbolic execution of set/_compute_parameters/the fit), general(x^2,x,1) = quadratic and general(x,1) = linear coefficient by coefficient, the accumulated sums are identical for permuted points and for every input form (lists, tuples, flat arguments, copy), ZeroDivisionError is raised exactly for a determinant below the tolerance; correlation_coeff: r*sqrt(dx)*sqrt(dy) = n Sxy - Sx Sy with dx dy - num^2 equal to an explicit sum of squares (Lagrange identity, so |r| <= 1), affine invariance, sign flip and r = +-1 for collinear data as identities.",
+   note="R-mode; math.fsum assumed exact; n > 5, other basis functions (sin, cos) and the relative 1e-6 agreement with an exact rational solution of the normal equations in binary64 are bounded stand-ins on well-conditioned seeded data (300/20000 sets, all permutations of sets of <= 5 points). One genuine defect (two-function general fit) found and repaired.",
+   technique="contract-based deductive verification: AST symbolic execution on symbolic data lists + exact ring normaliser + z3; bounded run-time contracts against exact rational arithmetic", ref="DESIGN.md §3 C17"),
 }
 NA_REASON = "check not built yet (work in progress; DESIGN.md has the plan)"
 
